@@ -15,7 +15,7 @@ RULE = ("one structured generator per exported kernel (54 of the 57 entries of _
         "images >= 2x2, nnz >= 1, Z of (ni+2)(nj+2), indices inside the target for the scatter kernels) and "
         "concentrated on boundaries: 2xN / Nx2 images, pixels in the first/last row/column, single pixels, empty "
         "rows, nnz 1, zero peaks / labels, labels at capacity, > 16384 provisional labels, n at multiples of the "
-        "4096 OpenMP chunk; engines: ASan+UBSan build of the module inside Python with 16 and with 1 OpenMP thread "
+        "4096 OpenMP chunk; many_labels: frames of 16384 / 32768 / 65536 (+-3, +5, +1000) separately started objects through connectedpixels, sparse_connectedpixels and the splat variant with the count, label range and one-to-one numbering known by construction; engines: ASan+UBSan build of the module inside Python with 16 and with 1 OpenMP thread "
         "(journaled child), a two-pattern metamorphic oracle for 'defined on return', and valgrind memcheck on a debug build for reads of uninitialised memory inside the kernels; non-trivial = the case "
         "touches at least one named boundary class; distinct = hash of (kernel, parameters)")
 ASSUMPTIONS = ["gcc AddressSanitizer/UBSan detect the out-of-bounds accesses and undefined operations that occur on the "
